@@ -182,6 +182,21 @@ func genSeqPlan(prop string, seed uint64, tier string) *Plan {
 	switch prop {
 	case "C02":
 		w.restart = 5
+		if r.Bool(1, 3) {
+			// "any history" includes GC passes: a third of the C02 worlds are laid out like C03
+			// worlds (several small data files, GC requests, the GC scenario template)
+			p.Extra["gcHistory"] = 1
+			w.gc = 3
+			w.set = 45
+			w.del = 14
+			nOps = r.Range(20, 90)
+			c.BodyMax = r.Pick64(300, 512, 1024, 2048)
+			c.DataFileMax = r.Pick64(768, 1024, 1024, 2048, 4096, 8192)
+			if r.Bool(1, 2) {
+				c.DataFileMax = c.BodyMax + r.Pick64(1024, 2048, 4096)
+			}
+			c.NoGCDays = 0
+		}
 	case "C03", "C18", "C07":
 		w.restart = 2
 		if prop == "C07" {
@@ -386,7 +401,7 @@ func genSeqPlan(prop string, seed uint64, tier string) *Plan {
 			p.Ops = append(p.Ops, Op{ID: idBase, Kind: "set", K: k, V: ValSpec{Class: VConst, Len: r.Range(8, 20), Seed: uint32(r.U64())}})
 		}
 	}
-	if (prop == "C03" || prop == "C18" || prop == "C07" || prop == "C13" || prop == "C08" || prop == "C17") && len(c.Served) > 0 && p.Extra["benignCollide"] == 0 && r.Bool(2, 5) {
+	if (prop == "C03" || prop == "C18" || prop == "C07" || prop == "C13" || prop == "C08" || prop == "C17" || (prop == "C02" && p.Extra["gcHistory"] == 1)) && len(c.Served) > 0 && p.Extra["benignCollide"] == 0 && r.Bool(2, 5) {
 		// scenario template: short first file, overwrites/deletes of its keys in later files, a
 		// restart that rebuilds the tree (tombstones leave the index), a pass that does not start
 		// at file 0, a restart with rebuilt indexes, then the usual random tail
